@@ -27,7 +27,7 @@ pub fn def() -> CheckDef {
                enumerated exhaustively (thorough: all 127093; quick: a deterministic, seed dependent 10% sample: one index out of every 10 consecutive ones); lengths 3-6 \
                (the rest of the quantifier's 'up to 6') are covered by dense random sampling and lengths 7-12 by random sampling (half of the random cases each). \
                Around and between the declarations globals that are not resources (static, static const, groupshared, plain constant, struct, function) are mixed in; \
-               random cases also vary the spelling of the group (register(spaceN) / register(xI, spaceN) / [[rssl::bind_group(N)]] / [[vk::binding(I, N)]]), language \
+               random cases also vary the spelling of the group (register(spaceN) / register(xI, spaceN) / [[rssl::bind_group(N)]] / [[vk::binding(I, N)]] / [[rssl::bind_group(N)]] with [[vk::binding(I)]] on either side), types named through a typedef (with the array dimension), language \
                register indices, const, template arguments, array length expressions, several declarators per declaration, namespaces, [[rssl::bindless]] and the \
                position of the entry point and pipelines. Unbounded arrays are excluded (quantifier); bind groups stay in 0..2 (groups >= 4 on Metal are C08's finding). \
                Every case is observed through Module::assign_api_bindings for 4 target configurations x {P0,P1,P2 (DefaultBindGroup 0,1,2), no pipeline}; every 8th case also \
